@@ -50,7 +50,10 @@ type (
 		Name      string
 		Val, Body Expr
 	}
-	EStar   struct{ X Expr } // locset s[*] (only in modifies)
+	EStar   struct {
+		X   Expr
+		All bool // s[**]: every element of the backing array (in-place append beyond len)
+	} // locset s[*] (only in modifies)
 	EUpdate struct{ X, K, V Expr }
 )
 
@@ -373,8 +376,13 @@ func (p *parser) postfix(e Expr) Expr {
 			p.pos++
 			if p.isOp("*") {
 				p.pos++
+				all := false
+				if p.isOp("*") {
+					p.pos++
+					all = true
+				}
 				p.expectOp("]")
-				e = &EStar{e}
+				e = &EStar{X: e, All: all}
 				continue
 			}
 			var lo Expr
